@@ -23,16 +23,18 @@ package main
 
 import (
 	"bytes"
-	"go/constant"
-	"regexp"
 	_ "embed"
 	"fmt"
 	"go/ast"
+	"go/constant"
+	"go/parser"
 	"go/printer"
 	"go/token"
 	"go/types"
 	"os"
+	"regexp"
 	"sort"
+	"strconv"
 	"strings"
 
 	"golang.org/x/tools/go/packages"
@@ -199,6 +201,8 @@ type inliner struct {
 	aliasName map[string]string
 	last      *helper // helper of the most recent rewrite
 	tfile     map[*ast.File]*token.File
+	curCall   *ast.CallExpr // the call being rewritten (set by helperCall)
+	scanning  bool          // helperCall is only asked whether an expression is a helper call
 }
 
 // inlineRound returns new contents for the files in which at least one call was inlined.
@@ -259,8 +263,13 @@ func inlineRound(pkgs []*packages.Package, overlay map[string][]byte, seq *int) 
 				if !ok || callPos[id] || blank[id] {
 					return true
 				}
-				if o := pk.TypesInfo.Uses[id]; o != nil && il.helpers[o] != nil {
-					delete(il.helpers, o)
+				if o := pk.TypesInfo.Uses[id]; o != nil {
+					if fo, isF := o.(*types.Func); isF {
+						o = fo.Origin()
+					}
+					if il.helpers[o] != nil {
+						delete(il.helpers, o)
+					}
 				}
 				return true
 			})
@@ -413,6 +422,9 @@ func (il *inliner) helperCall(e ast.Expr) (*ast.CallExpr, *helper) {
 	if obj == nil {
 		return nil, nil
 	}
+	if fo, isF := obj.(*types.Func); isF {
+		obj = fo.Origin() // a method of a generic type is used through an instance
+	}
 	h := il.helpers[obj]
 	if h == nil {
 		return nil, nil
@@ -422,7 +434,147 @@ func (il *inliner) helperCall(e ast.Expr) (*ast.CallExpr, *helper) {
 			return nil, nil
 		}
 	}
+	if h.generic() && !il.sameTypeParams(c, h) {
+		return nil, nil
+	}
+	if !il.scanning {
+		il.curCall = c
+	}
 	return c, h
+}
+
+// generic: a method of a generic type (functions with type parameters of their own are not handled).
+func (h *helper) generic() bool {
+	return h.sig.RecvTypeParams() != nil && h.sig.RecvTypeParams().Len() > 0
+}
+
+// sameTypeParams: the call's receiver is the helper's generic type instantiated with type
+// parameters of the calling function that carry the very names the helper gave its own (rq
+// *RequestCache[K, V] calling a method declared on *RequestCache[K, V]): the helper's body, read at the
+// call site, then speaks of the same types.
+func (il *inliner) sameTypeParams(c *ast.CallExpr, h *helper) bool {
+	if h.sig.TypeParams() != nil && h.sig.TypeParams().Len() > 0 {
+		return false
+	}
+	sel, ok := unparen(c.Fun).(*ast.SelectorExpr)
+	if !ok {
+		return false
+	}
+	t := il.pk.TypesInfo.TypeOf(sel.X)
+	if t == nil {
+		return false
+	}
+	if pt, isP := t.Underlying().(*types.Pointer); isP {
+		t = pt.Elem()
+	}
+	named, ok := types.Unalias(t).(*types.Named)
+	if !ok {
+		return false
+	}
+	want := h.sig.RecvTypeParams()
+	got := named.TypeArgs()
+	if got == nil || got.Len() != want.Len() {
+		return false
+	}
+	sc := il.pk.Types.Scope().Innermost(c.Pos())
+	if sc == nil {
+		return false
+	}
+	for i := 0; i < want.Len(); i++ {
+		tp, isTP := got.At(i).(*types.TypeParam)
+		if !isTP || tp.Obj().Name() != want.At(i).Obj().Name() {
+			return false
+		}
+		// and that name means this type parameter where the call stands
+		_, at := sc.LookupParent(tp.Obj().Name(), c.Pos())
+		if at != types.Object(tp.Obj()) {
+			return false
+		}
+	}
+	return true
+}
+
+// sigOf: the helper's signature as the current call sees it (instantiated for a generic receiver).
+func (il *inliner) sigOf(h *helper) *types.Signature {
+	if h.generic() && il.curCall != nil {
+		if s, ok := il.pk.TypesInfo.TypeOf(il.curCall.Fun).(*types.Signature); ok {
+			return s
+		}
+	}
+	return h.sig
+}
+
+// typeText: t written out for the file and position of the current call; refuses when a package it
+// names is not imported there or a name it uses means something else there.
+func (il *inliner) typeText(t types.Type) (string, bool) {
+	c := il.curCall
+	if c == nil {
+		return "", false
+	}
+	var file *ast.File
+	for _, f := range il.pk.Syntax {
+		if f.Pos() <= c.Pos() && c.Pos() < f.End() {
+			file = f
+		}
+	}
+	if file == nil {
+		return "", false
+	}
+	ok := true
+	text := types.TypeString(t, func(p *types.Package) string {
+		if p == il.pk.Types {
+			return ""
+		}
+		for _, im := range file.Imports {
+			path, err := strconv.Unquote(im.Path.Value)
+			if err != nil || path != p.Path() {
+				continue
+			}
+			if im.Name != nil {
+				if im.Name.Name == "_" || im.Name.Name == "." {
+					ok = false
+				}
+				return im.Name.Name
+			}
+			return p.Name()
+		}
+		ok = false
+		return p.Name()
+	})
+	if !ok || strings.Contains(text, "\n") {
+		return "", false
+	}
+	e, err := parser.ParseExpr(text)
+	if err != nil {
+		return "", false
+	}
+	sc := il.pk.Types.Scope().Innermost(c.Pos())
+	if sc == nil {
+		return "", false
+	}
+	ast.Inspect(e, func(n ast.Node) bool {
+		switch x := n.(type) {
+		case *ast.SelectorExpr:
+			if id, isID := x.X.(*ast.Ident); isID {
+				if _, at := sc.LookupParent(id.Name, c.Pos()); at == nil {
+					ok = false
+				} else if _, isPkg := at.(*types.PkgName); !isPkg {
+					ok = false
+				}
+			}
+			return false
+		case *ast.StructType, *ast.InterfaceType, *ast.FuncType:
+			ok = false // literal types: not needed, not handled
+			return false
+		case *ast.Ident:
+			_, at := sc.LookupParent(x.Name, c.Pos())
+			if _, isTN := at.(*types.TypeName); !isTN {
+				ok = false
+			}
+		}
+		return true
+	})
+	return text, ok
 }
 
 // usesOf counts the uses of a closure variable (blank assignments `_ = name` left by earlier rounds
@@ -670,7 +822,7 @@ func (il *inliner) rewriteStmtDirect(f *ast.File, encl *ast.FuncDecl, st ast.Stm
 				callerRes = sig.Results()
 			}
 		}
-		hres := h.sig.Results()
+		hres := il.sigOf(h).Results()
 		if callerRes == nil || !types.Identical(callerRes, hres) {
 			if os.Getenv("SCALINT_INLINE_DEBUG") != "" {
 				fmt.Fprintf(os.Stderr, "inline: %s at line %d refused: result types differ (%v vs %v)\n", h.key, line, callerRes, hres)
@@ -722,6 +874,31 @@ func (il *inliner) rewriteStmtDirect(f *ast.File, encl *ast.FuncDecl, st ast.Stm
 		}
 		il.note(h, "statement", fname, line)
 		return pin("{\n" + pre + "{\n" + binds + body + "\n}\ngoto " + end + "\n" + end + ":\n}"), true
+	case *ast.DeferStmt, *ast.GoStmt:
+		// `defer h(a…)` / `go h(a…)` with a result-less helper: the arguments are evaluated where the
+		// statement stands, the body runs in a function literal (its returns stay returns)
+		var call *ast.CallExpr
+		kw := "defer"
+		if d, isD := x.(*ast.DeferStmt); isD {
+			call = d.Call
+		} else {
+			call = x.(*ast.GoStmt).Call
+			kw = "go"
+		}
+		c, h := il.helperCall(call)
+		if h == nil || h.self(encl, st) || h.sig.Results().Len() != 0 {
+			return "", false
+		}
+		pre, binds, ok := il.bind(f, c, h)
+		if !ok {
+			return "", false
+		}
+		body, ok := il.body(f, c, h, func(r *ast.ReturnStmt) []ast.Stmt { return []ast.Stmt{r} })
+		if !ok {
+			return "", false
+		}
+		il.note(h, kw, fname, line)
+		return pin("{\n" + pre + kw + " func() {\n" + binds + body + "\n}()\n}"), true
 	case *ast.AssignStmt:
 		if len(x.Rhs) != 1 || (x.Tok != token.DEFINE && x.Tok != token.ASSIGN) {
 			return "", false
@@ -839,7 +1016,7 @@ func (il *inliner) rewriteStmtDirect(f *ast.File, encl *ast.FuncDecl, st ast.Stm
 			b.WriteString(pin(lf+":") + "\n")
 		}
 		b.WriteString(fTxt + "\n")
-		b.WriteString(pin("goto "+le+"\n"+le+":\n}"))
+		b.WriteString(pin("goto " + le + "\n" + le + ":\n}"))
 		il.note(h, "condition", fname, line)
 		return b.String(), true
 	case *ast.RangeStmt:
@@ -1073,7 +1250,7 @@ func (il *inliner) bodyGlobals(h *helper) map[string]bool {
 // statement that copies the temporaries into the targets.
 func (il *inliner) targets(h *helper, lhs []ast.Expr, define bool) (decls string, temps []ast.Expr, copyTxt string, ok bool) {
 	info := il.pk.TypesInfo
-	res := h.sig.Results()
+	res := il.sigOf(h).Results()
 	var db strings.Builder
 	resExprs := fieldTypeExprs(h.ftype.Results)
 	if len(resExprs) != len(lhs) || res.Len() != len(lhs) {
@@ -1308,6 +1485,61 @@ func (il *inliner) rewriteAssignIf(f *ast.File, encl *ast.FuncDecl, as *ast.Assi
 		}
 		return false
 	}
+	// literalLocal: a local of the helper that is defined as `x := &T{…}` (or new(T)) and never assigned
+	// again nor has its address taken: it is not nil wherever it is returned
+	literalLocal := func(id *ast.Ident) bool {
+		obj, isVar := info.Uses[id].(*types.Var)
+		if !isVar || obj.IsField() || !(h.body.Pos() <= obj.Pos() && obj.Pos() < h.body.End()) {
+			return false
+		}
+		defined, other := false, false
+		ast.Inspect(h.body, func(n ast.Node) bool {
+			switch y := n.(type) {
+			case *ast.AssignStmt:
+				for i, lhs := range y.Lhs {
+					li, ok := unparen(lhs).(*ast.Ident)
+					if !ok {
+						continue
+					}
+					if info.Defs[li] == types.Object(obj) && y.Tok == token.DEFINE && len(y.Lhs) == len(y.Rhs) {
+						switch r := unparen(y.Rhs[i]).(type) {
+						case *ast.UnaryExpr:
+							if _, isLit := unparen(r.X).(*ast.CompositeLit); isLit && r.Op == token.AND {
+								defined = true
+								continue
+							}
+						case *ast.CallExpr:
+							if fid, ok := unparen(r.Fun).(*ast.Ident); ok && fid.Name == "new" {
+								if _, isB := info.Uses[fid].(*types.Builtin); isB {
+									defined = true
+									continue
+								}
+							}
+						}
+						other = true
+					} else if info.Uses[li] == types.Object(obj) || info.Defs[li] == types.Object(obj) {
+						other = true
+					}
+				}
+			case *ast.UnaryExpr:
+				if li, ok := unparen(y.X).(*ast.Ident); ok && y.Op == token.AND && info.Uses[li] == types.Object(obj) {
+					other = true
+				}
+			case *ast.RangeStmt:
+				for _, e := range []ast.Expr{y.Key, y.Value} {
+					if li, ok := e.(*ast.Ident); ok && (info.Uses[li] == types.Object(obj) || info.Defs[li] == types.Object(obj)) {
+						other = true
+					}
+				}
+			case *ast.IncDecStmt:
+				if li, ok := unparen(y.X).(*ast.Ident); ok && info.Uses[li] == types.Object(obj) {
+					other = true
+				}
+			}
+			return true
+		})
+		return defined && !other
+	}
 	classify := func(e ast.Expr) string {
 		e = unparen(e)
 		switch x := e.(type) {
@@ -1316,7 +1548,7 @@ func (il *inliner) rewriteAssignIf(f *ast.File, encl *ast.FuncDecl, as *ast.Assi
 				return "nonnil"
 			}
 		case *ast.Ident:
-			if sentinel(x) || guardedNonNil(x) {
+			if sentinel(x) || guardedNonNil(x) || literalLocal(x) {
 				return "nonnil"
 			}
 			switch o := info.Uses[x].(type) {
@@ -1512,6 +1744,43 @@ func simpleOperand(e ast.Expr) bool {
 // typeAlias returns the name of a package-level alias for the type expression e of helper h
 // (declared at the end of h's file).
 func (il *inliner) typeAlias(h *helper, what string, e ast.Expr) (string, bool) {
+	if h.generic() {
+		// the helper's type parameters are not in scope at package level: the type is written out
+		// where the call stands, from the signature instantiated there
+		sig := il.sigOf(h)
+		var n int
+		switch {
+		case what == "recv":
+			sel, ok := unparen(il.curCall.Fun).(*ast.SelectorExpr)
+			if !ok {
+				return "", false
+			}
+			t := il.pk.TypesInfo.TypeOf(sel.X)
+			if t == nil {
+				return "", false
+			}
+			_, wantPtr := h.sig.Recv().Type().(*types.Pointer)
+			pt, havePtr := t.Underlying().(*types.Pointer)
+			switch {
+			case wantPtr && !havePtr:
+				t = types.NewPointer(t)
+			case !wantPtr && havePtr:
+				t = pt.Elem()
+			}
+			return il.typeText(t)
+		case strings.HasPrefix(what, "p"):
+			if _, err := fmt.Sscanf(what, "p%d", &n); err != nil || n >= sig.Params().Len() {
+				return "", false
+			}
+			return il.typeText(sig.Params().At(n).Type())
+		case strings.HasPrefix(what, "r"):
+			if _, err := fmt.Sscanf(what, "r%d", &n); err != nil || n >= sig.Results().Len() {
+				return "", false
+			}
+			return il.typeText(sig.Results().At(n).Type())
+		}
+		return "", false
+	}
 	k := h.key + "#" + what
 	if n, ok := il.aliasName[k]; ok {
 		return n, true
@@ -1550,9 +1819,13 @@ func fieldTypeExprs(fl *ast.FieldList) []ast.Expr {
 func (il *inliner) bind(f *ast.File, c *ast.CallExpr, h *helper) (pre, binds string, ok bool) {
 	info := il.pk.TypesInfo
 	sig := h.sig
-	if sig.Variadic() || sig.TypeParams() != nil || sig.RecvTypeParams() != nil {
+	if sig.Variadic() || (sig.TypeParams() != nil && sig.TypeParams().Len() > 0) {
 		return "", "", false
 	}
+	if h.generic() && (il.curCall != c || !il.sameTypeParams(c, h)) {
+		return "", "", false
+	}
+	isig := il.sigOf(h) // parameter types as the call sees them
 	if len(c.Args) != sig.Params().Len() {
 		return "", "", false // f(g()) with a multi-value g
 	}
@@ -1633,7 +1906,7 @@ func (il *inliner) bind(f *ast.File, c *ast.CallExpr, h *helper) (pre, binds str
 		// the receiver temp is typed explicitly unless the operand already has exactly that type
 		il.n++
 		tmp := fmt.Sprintf("ſ%da", il.n)
-		if (wantPtr == havePtr) && types.Identical(xt, rt) {
+		if (wantPtr == havePtr) && (types.Identical(xt, rt) || h.generic()) {
 			fmt.Fprintf(&pb, "%s := %s\n_ = %s\n", tmp, xText, tmp)
 		} else {
 			ts, ok := il.typeAlias(h, "recv", h.recv.List[0].Type)
@@ -1662,7 +1935,7 @@ func (il *inliner) bind(f *ast.File, c *ast.CallExpr, h *helper) (pre, binds str
 		return "", "", false
 	}
 	for i, a := range c.Args {
-		if !emit(i, names[i], sig.Params().At(i).Type(), a, "") {
+		if !emit(i, names[i], isig.Params().At(i).Type(), a, "") {
 			return "", "", false
 		}
 	}
@@ -1713,13 +1986,37 @@ func (il *inliner) body(f *ast.File, c *ast.CallExpr, h *helper, onReturn func(*
 			if id, ok := unparen(x.Fun).(*ast.Ident); ok && id.Name == "recover" {
 				bad = true
 			}
-			if _, hh := il.helperCall(x); hh == h {
+			il.scanning = true
+			_, hh := il.helperCall(x)
+			il.scanning = false
+			if hh == h {
 				recursive = true
 			}
 		case *ast.Ident:
 			obj := info.Uses[x]
 			if obj == nil {
 				return true
+			}
+			// a type parameter of the helper's generic receiver: the same name must be the matching
+			// type parameter where the call stands (sameTypeParams checked the receiver's arguments)
+			if tn, isTN := obj.(*types.TypeName); isTN {
+				if _, isTP := tn.Type().(*types.TypeParam); isTP {
+					sc := il.pk.Types.Scope().Innermost(c.Pos())
+					if sc == nil {
+						bad = true
+						return true
+					}
+					_, at := sc.LookupParent(x.Name, c.Pos())
+					atn, isTN2 := at.(*types.TypeName)
+					if !isTN2 {
+						bad = true
+						return true
+					}
+					if _, isTP2 := atn.Type().(*types.TypeParam); !isTP2 {
+						bad = true
+					}
+					return true
+				}
 			}
 			// names that mean something else at the call site
 			pkgLevel := obj.Parent() == il.pk.Types.Scope() || obj.Parent() == types.Universe
